@@ -132,7 +132,8 @@ PROPS = {
     "C13": dict(
         pkg="c13", level="exploration",
         tests=[T("TestC13", Q(30000), Q(150000, timeout=900, shards=8)),
-               T("TestC13Raft", Q(3000, timeout=300), Q(20000, timeout=900, shards=4))],
+               T("TestC13Raft", Q(3000, timeout=300), Q(20000, timeout=900, shards=4)),
+               T("TestC13Cluster", Q(400, timeout=300, shrinktime="20s"), Q(3000, timeout=900, shards=4, shrinktime="60s"))],
         rule="Sequences of 1-40 operations on the real kv.LFSM: set/delete with keys from a path alphabet (/tables/a, /tables/a/lease, /tables/sys/idseq, /cleanup/N/id, queue/T/n, '', ...), "
              "UTF-8 values (JSON-looking, quotes, escapes, unicode, arbitrary rapid strings) and versions in {0, current, stale, future}; lookups get/exists/getall/getallvalues/list/listdir with the callers' "
              "glob patterns; snapshot+restore into a fresh store at any point; a second replica fed the same entries under a different grouping into Update calls. Oracle: CAS rule against a model map "
